@@ -354,10 +354,12 @@ pub fn lzw_decode(data: &[u8], params: &LZWFlateParams) -> Result<Vec<u8>> {
     use weezl::{BitOrder, decode::Decoder};
     let mut out = vec![];
 
+    // weezl takes the width of the data symbols (8 bits); codes then start at 9 bits,
+    // clear-table is 256 and EOD is 257 as the PDF LZW format requires
     let mut decoder = if params.early_change != 0 {
-        Decoder::with_tiff_size_switch(BitOrder::Msb, 9)
+        Decoder::with_tiff_size_switch(BitOrder::Msb, 8)
     } else {
-        Decoder::new(BitOrder::Msb, 9)
+        Decoder::new(BitOrder::Msb, 8)
     };
 
     decoder
@@ -371,7 +373,7 @@ fn lzw_encode(data: &[u8], params: &LZWFlateParams) -> Result<Vec<u8>> {
         bail!("encoding early_change != 0 is not supported");
     }
     let mut compressed = vec![];
-    Encoder::new(BitOrder::Msb, 9)
+    Encoder::new(BitOrder::Msb, 8)
         .into_stream(&mut compressed)
         .encode_all(data).status?;
     Ok(compressed)
